@@ -12,10 +12,10 @@ def _unhex(w):
 
 def nontrivial(case, impl):
     f = case.split(" ")
-    s = _unhex(f[2] if f[0] == "u" else f[3]) + (_unhex(f[5]) if f[0] == "c" else b"")
+    s = _unhex(f[2] if f[0] == "u" else f[3]) + (_unhex(f[5]) if f[0] in ("c", "d") else b"")
     # non-trivial: the intended string contains a character that needs escaping
     if any(c in s for c in b'\\"\n\t\r\f'):
-        return (f[0], f[1] if f[0] in ("e", "b", "c") else "", s)
+        return (f[0], f[1] if f[0] in ("e", "b", "c", "d") else "", s)
     return None
 
 
